@@ -40,18 +40,23 @@ def run(ctx):
         c.tlc_l1(ctx, M, "MC_StreamJoin_big.cfg", workers=8, timeout=3000, xmx="16g")
     cfg = {"W": 1, "MaxL": 2, "MaxR": 2}
     simcfg = {"W": 2, "MaxL": 4, "MaxR": 4}
+    # the same behaviours again (i) with every timestamp and watermark shifted by a large base - nanosecond-epoch magnitude, beyond
+    # 2^53 - since the join depends on timestamp differences only, (ii) with other joins sharing the two streams registered in the
+    # manager, kept or unregistered again before the first event
+    V = [{"base": 1 << 60, "others": "kept"}, {"base": 1700000000000000001, "others": "removed"}]
     if q:
-        c.graph_leg(ctx, M, "join", "Gen_StreamJoin.cfg", cfg, 300, 6, 4, "Sim_StreamJoin.cfg", 1000, 12, sim_cfgobj=simcfg)
-        c.graph_leg(ctx, M, "join", "Gen_StreamJoin_f.cfg", cfg, 300, 6, 4)
+        c.graph_leg(ctx, M, "join", "Gen_StreamJoin.cfg", cfg, 300, 6, 4, "Sim_StreamJoin.cfg", 1000, 12, sim_cfgobj=simcfg, variants=V)
+        c.graph_leg(ctx, M, "join", "Gen_StreamJoin_f.cfg", cfg, 300, 6, 4, variants=V[1:])
         traces(ctx, 600)
     else:
         c.graph_leg(ctx, M, "join", "Gen_StreamJoin_big.cfg", cfg, 3000, 6, 4, "Sim_StreamJoin.cfg", 40000, 12, sim_cfgobj=simcfg,
-                    timeout=3000)
+                    timeout=3000, variants=V)
         traces(ctx, 20000)
     ctx.cov["rule"] = ("L2 (no eviction): the complete graph of all arrival orders of up to 2+2 events (keys a, b, none; timestamps; "
                        "condition flag) with no-op watermark advances - i.e. every merge of every pair of sequences - replayed on a real "
                        "StreamJoinNode and on one registered in StreamJoinManager; pairs returned by each call and buffer sizes compared; "
-                       "TLC-simulated 4+4 behaviours over 3 keys. L3 (eviction): seeded histories with watermark advances recorded from the "
+                       "TLC-simulated 4+4 behaviours over 3 keys; all of it again with timestamps shifted by 2^60 / 1.7e18 and with other joins "
+                       "on the same streams registered in the manager (kept, or unregistered before the first event). L3 (eviction): seeded histories with watermark advances recorded from the "
                        "real node and validated by TLC, which infers the evicted subset from the logged buffer sizes")
     ctx.assumptions += ["whole-second windows in the node's own unit convention (raw timestamp difference compared with as_secs())",
                         "inner join only (the statement); outer-join emission is outside it"]
